@@ -52,6 +52,31 @@ Theorem C11_models_mirror : forall (Sg T : Type) (dS : Sg) (dT : T) (dfs : list 
 Proof. exact @models2d_spec. Qed.
 Print Assumptions C11_models_mirror.
 
+(* BycycleGroup.fit on an object that was fitted before (any number of times, arrays of any other shape,
+   2-D or 3-D): a fit REPLACES df_features and models; the object then holds exactly what a fresh object
+   fitted on the last array holds *)
+Theorem C11_refit_replaces_tables_and_models : forall (K Sg T : Type) (cf : K -> Sg -> T)
+  (epochs : K -> list Sg -> list T) (dK : K) (dS : Sg) (dT : T)
+  (o : gobj) (fits : list gfit) (f : gfit),
+  gobj_run cf epochs dK dS dT o (fits ++ [f]) = gobj_fit cf epochs dK dS dT Unfitted f.
+Proof. exact @gobj_refit_replaces. Qed.
+Print Assumptions C11_refit_replaces_tables_and_models.
+
+(* ... and that has the LAST array's rows: as many tables and models as rows, table i = analysis of row i
+   with the options for row i, model i = (that table, row i) *)
+Theorem C11_object_after_any_fits_holds_the_last_array : forall (K Sg T : Type) (cf : K -> Sg -> T)
+  (epochs : K -> list Sg -> list T) (dK : K) (dS : Sg) (dT : T)
+  (o : gobj) (fits : list gfit) (sigma : list nat) (spec : kwspec) (sigs : list Sg),
+  Permutation sigma (seq 0 (length sigs)) ->
+  exists dfs models,
+    gobj_run cf epochs dK dS dT o (fits ++ [Fit2 sigma spec sigs]) = Fitted2 dfs models /\
+    length dfs = length sigs /\ length models = length sigs /\
+    forall i, i < length sigs ->
+      nth i dfs dT = cf (kw_for dK spec i) (nth i sigs dS) /\
+      nth i models (dT, dS) = (cf (kw_for dK spec i) (nth i sigs dS), nth i sigs dS).
+Proof. exact @gobj_last_fit_2d. Qed.
+Print Assumptions C11_object_after_any_fits_holds_the_last_array.
+
 (* Legacy: an unordered pool (imap_unordered) does NOT have the property *)
 Theorem C11_unordered_pool_refuted : exists (sigma : list nat) (xs : list nat),
   Permutation sigma (seq 0 (length xs)) /\ pool_imap_unordered sigma (fun x => x) xs 0 <> map (fun x => x) xs.
